@@ -166,9 +166,9 @@ class SplineH(Base):
         obl = []
         inputs = {"buf": buf, "w": w, "enc": enc_name, "pts": [[float(a), float(b)] for a, b in pts], "order": order, "extrap": extrap}
         if exc is not None:
-            obl.append(("CalibrationError only outside the closed range without extrapolation",
-                        z3.And(z3.Not(inside), z3.BoolVal(not extrap)) if exc == "CalibrationError" else False))
-            return result("exc:" + exc, obl, observe={"exc": exc, "cls": "ran"}, inputs=inputs)
+            # "failing with a calibration error": any exception counts as the failure (the class name is not compared), but only where failing is allowed
+            obl.append((f"a calibration failure ({exc}) only outside the closed range without extrapolation", z3.And(z3.Not(inside), z3.BoolVal(not extrap))))
+            return result("exc", obl, observe={"exc": "raised", "cls": "ran"}, inputs=inputs)
         rv = self.common_obligations(v, raw, "FloatParameter", obl)
         if isinstance(v, bv.SymReal):
             if order == 0:
@@ -336,8 +336,8 @@ class EnumBoolH(Base):
         if which < len(ENUMS):
             listed = z3.Or([raw == k for k in ENUMS[which]])
             if exc is not None:
-                obl.append(("ValueError only for unlisted raw values", z3.Not(listed) if exc == "ValueError" else False))
-                return result("exc:" + exc, obl, observe={"exc": exc, "cls": "ran"}, inputs=inputs)
+                obl.append((f"failure ({exc}) only for unlisted raw values", z3.Not(listed)))
+                return result("exc", obl, observe={"exc": "raised", "cls": "ran"}, inputs=inputs)
             rv = self.common_obligations(v, raw, "StrParameter", obl)
             label = v.v if isinstance(v, bv.SymStr) and v.is_concrete() else None
             ks = [k for k, lab in ENUMS[which].items() if lab == label]
@@ -387,11 +387,11 @@ def make(job):
 def jobs(tier):
     nf = 4 if tier == "quick" else 6
     return [
-        {"name": "spline", "h": "spline", "params": {"nfields": nf}, "split": 32, "chunk": 40, "must_reach": ["calibrated", "exc:CalibrationError"]},
+        {"name": "spline", "h": "spline", "params": {"nfields": nf}, "split": 32, "chunk": 40, "must_reach": ["calibrated", "exc"]},
         {"name": "poly", "h": "poly", "params": {"nfields": nf}, "split": 16, "chunk": 40, "must_reach": ["calibrated"]},
         {"name": "context", "h": "context", "params": {"nfields": nf}, "split": 16, "chunk": 40, "must_reach": ["calibrated", "raw"]},
         {"name": "context-twice", "h": "context2", "params": {"nfields": min(nf, 2)}, "split": 16, "chunk": 40, "must_reach": ["calibrated/raw", "raw/calibrated"]},
-        {"name": "enumbool", "h": "enumbool", "params": {"nfields": nf}, "split": 16, "chunk": 40, "must_reach": ["label", "bool", "exc:ValueError"]},
+        {"name": "enumbool", "h": "enumbool", "params": {"nfields": nf}, "split": 16, "chunk": 40, "must_reach": ["label", "bool", "exc"]},
     ]
 
 
@@ -456,7 +456,7 @@ def concrete(req):
         try:
             v = pt.parse_value(pkt)
         except Exception as e:   # noqa: BLE001
-            return {"cls": "ran", "exc": type(e).__name__}
+            return {"cls": "ran", "exc": "raised" if req["kind"] in ("spline", "twin", "enumbool") else type(e).__name__, "exc_type": type(e).__name__}
     if isinstance(v, float):
         val = float(v)
     elif isinstance(v, str):
@@ -531,7 +531,7 @@ def judge(req, got):
         want = _spline(i["pts"], i["order"], i["extrap"], r)
         desc += f" spline {i['pts']} order {i['order']} extrapolate {i['extrap']}"
         if want == "CalibrationError":
-            return ("not-reproduced", "agrees") if got.get("exc") == "CalibrationError" else ("reproduced", f"{desc}: expected CalibrationError, got {got}")
+            return ("not-reproduced", "agrees") if got.get("exc") is not None else ("reproduced", f"{desc}: expected a calibration failure, got {got}")
         return ("not-reproduced", "agrees") if num_ok(want) else ("reproduced", f"{desc}: expected {float(want)}, got {got}")
     if kind == "poly":
         want = _cal(("poly", i["coeffs"]), r)
@@ -559,13 +559,13 @@ def judge(req, got):
         if r in en:
             ok = got.get("exc") is None and got.get("value") == en[r] and got.get("raw") == r and got.get("class") == "StrParameter"
             return ("not-reproduced", "agrees") if ok else ("reproduced", f"{desc} enum {en}: expected {en[r]!r}, got {got}")
-        return ("not-reproduced", "agrees") if got.get("exc") == "ValueError" else ("reproduced", f"{desc} enum {en}: expected ValueError, got {got}")
+        return ("not-reproduced", "agrees") if got.get("exc") is not None else ("reproduced", f"{desc} enum {en}: expected a failure, got {got}")
     ok = got.get("exc") is None and got.get("value") == int(bool(r)) and got.get("raw") == r and got.get("class") == "BoolParameter"
     return ("not-reproduced", "agrees") if ok else ("reproduced", f"{desc} boolean: expected {bool(r)} raw {r}, got {got}")
 
 
 def finding_key(f, req, got):
     i = req.get("input", {})
-    if req.get("kind") == "spline" and got.get("exc") == "ValueError":
+    if req.get("kind") == "spline" and got.get("exc_type") == "ValueError":
         return "C08:spline-at-last-knot"
     return f"C08:{req.get('kind')}:{f['label']}"
